@@ -1,6 +1,7 @@
 package vc
 
 import (
+	"sync"
 	"sort"
 	"fmt"
 	"go/types"
@@ -174,7 +175,7 @@ func (c *VCtx) callFn(fr *Frame, st *State, cc *ssa.CallCommon, fv *FnVal, args 
 			c.obls[len(c.obls)-1].Props = c.ownProps()
 			// the helper assumes the monitor invariants on entry: they must hold at the call
 			// (except those it declares it can start without: opt breaks = I1 I2)
-			breaks := " " + ct.Opts["breaks"] + " "
+			breaks := " " + ct.Opts["breaks"] + " " + ct.Opts["leaves"] + " "
 			for _, h := range st.held {
 				if ct.Inline {
 					break // the body is executed in the caller's state: nothing is assumed on its behalf
@@ -283,6 +284,15 @@ func (c *VCtx) callbackCall(fr *Frame, st *State, cc *ssa.CallCommon, f *Term, a
 	}
 	fr.callbacks++
 	c.pointAsserts(fr, st, fmt.Sprintf("callback %d", fr.callbacks), cc.Pos())
+	if u, ok := cc.Value.(*ssa.UnOp); ok {
+		if fa, ok := u.X.(*ssa.FieldAddr); ok {
+			// "callback <field>": a call of the function stored in that field (independent of call order)
+			stT := deref(fa.X.Type())
+			if stt, ok := stT.Underlying().(*types.Struct); ok {
+				c.pointAsserts(fr, st, "callback "+stt.Field(fa.Field).Name(), cc.Pos())
+			}
+		}
+	}
 	// a cancel function obtained from context.WithCancel cancels its context
 	cx := c.cancelOf(f)
 	c.cancelCtx(st, cx, Not(Eq(cx, Null)))
@@ -463,6 +473,9 @@ func (c *VCtx) applyContract(fr *Frame, st *State, cc *ssa.CallCommon, ct *FuncC
 		if len(private) > 0 {
 			var hs []string
 			for k, srt := range c.heapSorts {
+				if !strings.HasPrefix(string(srt), "(Array ") {
+					continue
+				}
 				ks, _ := arrParts(srt)
 				if ks == SRef && (strings.HasPrefix(k, "F:") || strings.HasPrefix(k, "G:")) {
 					hs = append(hs, k)
@@ -480,7 +493,11 @@ func (c *VCtx) applyContract(fr *Frame, st *State, cc *ssa.CallCommon, ct *FuncC
 				}
 			}
 		}
+		foreign := c.heapsOutOfReach(st, callee, args)
 		c.havocAll(st)
+		for k, v := range foreign {
+			st.heaps[k] = v
+		}
 		for _, kp := range kept {
 			h := c.heap(st, kp.heap, c.heapSorts[kp.heap])
 			st.heaps[kp.heap] = Store(h, kp.key, kp.val)
@@ -538,7 +555,7 @@ func (c *VCtx) applyContract(fr *Frame, st *State, cc *ssa.CallCommon, ct *FuncC
 	if ct.Opts["frame"] == "skip" && c.top != nil {
 		// what survives a call whose frame is not verified: the callee (running as this invocation) and
 		// everybody else respect the ghost-map disciplines and the package guarantees
-		c.afterOpaqueCall(st, pre, ct.Opts["holds"] != "")
+		c.afterOpaqueCall(st, pre, ct.Opts["holds"] != "", callee)
 	}
 	if ct.Opts["holds"] != "" && c.top != nil {
 		// a ...Locked helper re-establishes the invariants of the monitor it works in before it returns
@@ -560,6 +577,9 @@ func (c *VCtx) applyContract(fr *Frame, st *State, cc *ssa.CallCommon, ct *FuncC
 				}
 				sc := c.objScope(m, st, st)
 				for _, inv := range m.spec.Invs {
+					if strings.Contains(" "+ct.Opts["leaves"]+" ", " "+inv.Label+" ") {
+						continue // the helper may leave this invariant broken
+					}
 					c.factG(And(st.pc, cond), c.translateBool(sc, inv.E))
 				}
 			}
@@ -744,6 +764,12 @@ func (c *VCtx) builtin(fr *Frame, st *State, b *ssa.Builtin, cc *ssa.CallCommon,
 		return nil
 	case "close":
 		ch := fr.term(cc.Args[0])
+		if fr.contract != nil && fr.contract.Asserts != nil {
+			// assertions at "close N" / "close *" describe the state just before the close (e.g. the token that
+			// entitles this invocation to close the channel)
+			c.pointAsserts(fr, st, fmt.Sprintf("close %d", fr.closes+1), cc.Pos())
+			c.pointAsserts(fr, st, "close *", cc.Pos())
+		}
 		c.safety(fr, st, "close", And(Not(Eq(ch, Null)), Not(c.isClosed(st, ch))), cc.Pos())
 		c.noteClose(fr, st, ch)
 		// the close happens now: this resolves the prophecy closedAt(ch)
@@ -753,11 +779,23 @@ func (c *VCtx) builtin(fr *Frame, st *State, b *ssa.Builtin, cc *ssa.CallCommon,
 		if fr.contract != nil {
 			fr.closes++
 			c.runGhost(fr, st, fr.contract, fmt.Sprintf("close %d", fr.closes), nil)
+			c.runGhost(fr, st, fr.contract, "close *", nil)
 		}
 		if len(st.held) == 0 && len(c.globalClauses()) > 0 {
 			// close() outside a critical section is an atomic action of its own
 			c.closeCount++
-			c.assertGlobal(st, before, fmt.Sprintf("close%d", c.closeCount))
+			where := ""
+			if fr.curBlock != nil {
+				// (a deferred close runs at a return: say which one)
+				where = fmt.Sprintf(" [block %d %s", fr.curBlock.Index, fr.curBlock.Comment)
+				for _, in := range fr.curBlock.Instrs {
+					if r, ok := in.(*ssa.Return); ok && r.Pos().IsValid() {
+						where += ", return at " + c.eng.pos(r.Pos())
+					}
+				}
+				where += "]"
+			}
+			c.assertGlobal(st, before, fmt.Sprintf("close%d", c.closeCount)+where)
 		}
 		return nil
 	case "min", "max":
@@ -1129,7 +1167,7 @@ func (c *VCtx) isGhostFieldHeap(h string) bool {
 // afterOpaqueCall relates the state after a frame-skip call to the state before it: set-once ghost entries keep
 // their value, alloc only grows, the two-state guarantees hold for the step, and (outside critical sections)
 // the global invariants hold again.
-func (c *VCtx) afterOpaqueCall(st, pre *State, worksUnderCallerLock bool) {
+func (c *VCtx) afterOpaqueCall(st, pre *State, worksUnderCallerLock bool, callee *ssa.Function) {
 	// fields declared immutable keep their value on every object that existed before the call
 	allocPre := c.allocHeap(pre)
 	if allocPost := c.allocHeap(st); allocPost.S != allocPre.S {
@@ -1160,17 +1198,36 @@ func (c *VCtx) afterOpaqueCall(st, pre *State, worksUnderCallerLock bool) {
 		ks, _ := arrParts(g.sort)
 		c.linkFact(T(SBool, fmt.Sprintf("(forall ((k %s)) (! (=> (not (= (select %s k) %s)) (= (select %s k) (select %s k))) :pattern ((select %s k)) :pattern ((select %s k))))", ks, old.S, g.zero, nw.S, old.S, nw.S, old.S)))
 	}
-	if len(st.held) == 0 {
-		c.assumeGlobal(st, pre)
-	} else {
-		// (a helper that works inside the caller's critical section proves the guarantees for entry -> exit itself)
-		_ = worksUnderCallerLock
-		for _, g := range c.globalClauses() {
-			if g.trans {
-				c.factG(st.pc, c.translateBool(c.globalScope(g.pkg, st, pre), g.cl.E))
+	// owned ghost maps (and the maps written under their tokens): entries this invocation holds stay its own unless
+	// the callee can reach a function whose contract assigns that map
+	if callee != nil {
+		for _, g := range c.ghostMaps() {
+			if g.kind != "owned" && g.kind != "by" {
+				continue
+			}
+			if c.mayAssignGhost(callee, g.name) {
+				continue
+			}
+			old := c.heap(pre, g.heap, g.sort)
+			nw := c.heap(st, g.heap, g.sort)
+			if old.S == nw.S {
+				continue
+			}
+			ks, _ := arrParts(g.sort)
+			if g.kind == "owned" {
+				c.linkFact(T(SBool, fmt.Sprintf("(forall ((k %s)) (! (= (= (select %s k) me) (= (select %s k) me)) :pattern ((select %s k))))", ks, old.S, nw.S, nw.S)))
+			} else if tk := c.ghostMapByName(g.token); tk != nil && !c.mayAssignGhost(callee, tk.name) {
+				tokOld := c.heap(pre, tk.heap, tk.sort)
+				c.linkFact(T(SBool, fmt.Sprintf("(forall ((k %s)) (! (=> (= (select %s k) me) (= (select %s k) (select %s k))) :pattern ((select %s k))))", ks, tokOld.S, nw.S, old.S, nw.S)))
 			}
 		}
 	}
+	// the call took time
+	c.fact(Ge(c.now(st), c.now(pre)))
+	// global invariants hold for the state observed now, the guarantees for the step (the callee proves them for
+	// its own actions, everybody else's are the rely)
+	_ = worksUnderCallerLock
+	c.assumeGlobal(st, pre)
 }
 
 // immutableHeaps: the field heaps of all fields declared immutable in the relevant packages.
@@ -1267,4 +1324,215 @@ func (c *VCtx) monitorIsReceivers(m *monitorRef, recv *Term, callee *ssa.Functio
 		}
 	}
 	return nil
+}
+
+// heapsOutOfReach: field and ghost heaps of packages that the callee's package does not (transitively) import
+// cannot be touched by the callee, provided it is not handed any function value it could call back.
+func (c *VCtx) heapsOutOfReach(st *State, callee *ssa.Function, args []Val) map[string]*Term {
+	out := map[string]*Term{}
+	var calleePkg *types.Package
+	if tp := c.eng.TPkgs[fnPkgPath(callee)]; tp != nil {
+		calleePkg = tp.Types // (instantiations of generic functions have no ssa package of their own)
+	}
+	if calleePkg == nil {
+		return out
+	}
+	for _, a := range args {
+		switch x := a.(type) {
+		case *FnVal:
+			return out
+		case *Term:
+			if x.GT != nil {
+				if _, isSig := x.GT.Underlying().(*types.Signature); isSig {
+					return out
+				}
+			}
+		}
+	}
+	if len(callee.FreeVars) > 0 {
+		return out
+	}
+	reach := map[string]bool{}
+	var walk func(p *types.Package)
+	walk = func(p *types.Package) {
+		if p == nil || reach[p.Path()] {
+			return
+		}
+		reach[p.Path()] = true
+		for _, q := range p.Imports() {
+			walk(q)
+		}
+	}
+	walk(calleePkg)
+	touchesMaps := false
+	for p := range reach {
+		if c.pkgTouchesMaps(p) {
+			touchesMaps = true
+		}
+	}
+	for k, srt := range c.heapSorts {
+		var pkg string
+		switch {
+		case strings.HasPrefix(k, "M:") && !touchesMaps:
+			// no code the callee can reach ever creates, updates or deletes from a map
+			out[k] = c.heap(st, k, srt)
+			continue
+		case strings.HasPrefix(k, "F:"):
+			rest := k[2:]
+			i := strings.LastIndex(rest, ".")
+			if i < 0 {
+				continue
+			}
+			tkey := rest[:i]
+			j := strings.LastIndex(tkey, ".")
+			if j < 0 {
+				continue
+			}
+			pkg = tkey[:j]
+		case strings.HasPrefix(k, "G:") && strings.Contains(k[2:], "."):
+			// shared ghost maps are not frozen during the call (other threads act meanwhile): they are havocked and
+			// related to their old value by the rely in afterOpaqueCall. Thread-local maps and the ghost fields
+			// of objects are kept like ordinary fields.
+			shared := false
+			for _, g := range c.ghostMaps() {
+				if g.heap == k && g.kind != "local" {
+					shared = true
+				}
+			}
+			if shared {
+				continue
+			}
+			pkg = k[2:][:strings.Index(k[2:], ".")]
+		default:
+			continue
+		}
+		full := pkg
+		if !strings.Contains(pkg, "/") || !strings.HasPrefix(pkg, "github.com") {
+			if strings.HasPrefix(pkg, "sync") || !strings.Contains(k, ".") {
+				continue
+			}
+			full = ModPath + "/" + pkg
+		}
+		if _, isRepo := c.eng.TPkgs[full]; !isRepo {
+			continue
+		}
+		if reach[full] {
+			continue
+		}
+		out[k] = c.heap(st, k, srt)
+	}
+	return out
+}
+
+var mapTouchCache = map[string]bool{}
+var mapTouchMu sync.Mutex
+
+// pkgTouchesMaps: does any function of the (repository) package update, delete from or create a map?
+func (c *VCtx) pkgTouchesMaps(path string) bool {
+	mapTouchMu.Lock()
+	defer mapTouchMu.Unlock()
+	if v, ok := mapTouchCache[path]; ok {
+		return v
+	}
+	res := false
+	sp := c.eng.SPkgs[path]
+	if sp == nil || !strings.HasPrefix(path, ModPath) {
+		// outside the repository: standard library packages do not know the repository's maps
+		mapTouchCache[path] = false
+		return false
+	}
+	var scan func(fn *ssa.Function)
+	scan = func(fn *ssa.Function) {
+		for _, b := range fn.Blocks {
+			for _, in := range b.Instrs {
+				switch x := in.(type) {
+				case *ssa.MapUpdate, *ssa.MakeMap:
+					res = true
+				case *ssa.Call:
+					if bi, ok := x.Call.Value.(*ssa.Builtin); ok && (bi.Name() == "delete" || bi.Name() == "clear") {
+						res = true
+					}
+				}
+			}
+		}
+		for _, an := range fn.AnonFuncs {
+			scan(an)
+		}
+	}
+	for _, m := range sp.Members {
+		switch x := m.(type) {
+		case *ssa.Function:
+			scan(x)
+		case *ssa.Type:
+			for _, t := range []types.Type{x.Type(), types.NewPointer(x.Type())} {
+				ms := c.eng.Prog.MethodSets.MethodSet(t)
+				for i := 0; i < ms.Len(); i++ {
+					if f := c.eng.Prog.MethodValue(ms.At(i)); f != nil {
+						scan(f)
+					}
+				}
+			}
+		}
+	}
+	mapTouchCache[path] = res
+	return res
+}
+
+var ghostAssignCache = map[string]bool{}
+var ghostAssignMu sync.Mutex
+
+// mayAssignGhost: can callee, through static calls (including the closures it creates), reach a function whose
+// contract has a ghost statement assigning ghost map name? Calls through function values it was handed are the
+// caller's own closures or user callbacks (which do not execute library ghost code of their own accord).
+func (c *VCtx) mayAssignGhost(callee *ssa.Function, name string) bool {
+	key := callee.String() + "|" + name
+	ghostAssignMu.Lock()
+	if v, ok := ghostAssignCache[key]; ok {
+		ghostAssignMu.Unlock()
+		return v
+	}
+	ghostAssignMu.Unlock()
+	seen := map[*ssa.Function]bool{}
+	var visit func(f *ssa.Function) bool
+	visit = func(f *ssa.Function) bool {
+		if f == nil || seen[f] {
+			return false
+		}
+		seen[f] = true
+		if o := f.Origin(); o != nil && o != f {
+			if visit(o) {
+				return true
+			}
+		}
+		if ct := c.eng.ContractOf(f); ct != nil {
+			for _, g := range ct.Ghost {
+				lhs, _, _ := strings.Cut(g.Src, ":=")
+				if strings.HasPrefix(strings.TrimSpace(lhs), name+"(") {
+					return true
+				}
+			}
+		}
+		for _, b := range f.Blocks {
+			for _, in := range b.Instrs {
+				switch x := in.(type) {
+				case ssa.CallInstruction:
+					if sc := x.Common().StaticCallee(); sc != nil && strings.HasPrefix(fnPkgPath(sc), ModPath) {
+						if visit(sc) {
+							return true
+						}
+					}
+				case *ssa.MakeClosure:
+					if visit(x.Fn.(*ssa.Function)) {
+						return true
+					}
+				}
+			}
+		}
+		return false
+	}
+	res := visit(callee)
+	ghostAssignMu.Lock()
+	ghostAssignCache[key] = res
+	ghostAssignMu.Unlock()
+	return res
 }
